@@ -153,6 +153,32 @@ def smoke_job(ctx, sc, nruns=6):
     return vf.Job(sc.name + '_native_smoke', fn, expect='pass', meta={'scenario': sc.name, 'kind': 'translator validation: native execution of the generated program under random schedules'})
 
 
+def tv_job(ctx):
+    """translation validation: harness/e3/tv_script.c (a deterministic single-threaded script over the whole public API) is run (a) through
+    seqcc + gcc and (b) against the real library built from the same tree; the printed event sequences must be identical"""
+    def fn():
+        sc = Scenario('tv_script', 'tv_script.c', ['tv_script'], units=ALL_UNITS, R=400,
+                      pools={'waiter': {'type': 'struct.waiter', 'count': 2}, 'note': {'type': 'struct.nsync_note_s_', 'count': 3}, 'counter': {'type': 'struct.nsync_counter_s_', 'count': 1}},
+                      unroll={'*': 1}, defines=['VF_FROZEN_CLOCK'],
+                      cfg_extra={'max_cells': 400, 'max_rec': 2, 'exclude_fns': ['cv_enqueue', 'cv_dequeue', 'cv_ready_time', 'note_*', 'notify', 'nsync_note_*', 'no_children']})
+        o, d = native_run(ctx, sc, [65535] * 400, 'tv', env_extra={'VF_AUTOSKIP': '1'})
+        ev_gen = [l for l in d.splitlines() if l.startswith('EV ')]
+        lib = vf.build_real_lib(ctx)
+        exe = ctx.path('tv', 'tv_real')
+        vf.cc_native(exe, [os.path.join(HE3, 'tv_script.c'), os.path.join(HE3, 'tv_main.c'), lib], front_inc=[HE3], incs=['public'], extra=['-lpthread', '-w'])
+        rc, out, err, w, _ = vf.run([exe], timeout=60)
+        ev_real = [l for l in out.splitlines() if l.startswith('EV ')]
+        same = (ev_gen == ev_real) and len(ev_real) >= 30 and o == 'clean'
+        fails = []
+        if not same:
+            k = next((i for i, (x, y) in enumerate(zip(ev_gen, ev_real)) if x != y), min(len(ev_gen), len(ev_real)))
+            fails.append({'confirmed': False, 'key': 'tv', 'detail': 'translator validation mismatch at event %d: generated %r real %r (native outcome %s, %d vs %d events) %s' % (
+                k, ev_gen[k:k + 1], ev_real[k:k + 1], o, len(ev_gen), len(ev_real), d[-200:])})
+        return {'status': 'pass' if same else 'error', 'obligations': len(ev_real), 'discharged': len(ev_real) if same else 0, 'programs': 1, 'events_compared': len(ev_real),
+                'failures': fails}
+    return vf.Job('translator_validation_tv_script', fn, expect='pass', meta={'kind': 'translation validation: seqcc output vs real library on a deterministic API script'})
+
+
 def native_run(ctx, sc, nd, tag, env_extra=None):
     out_c, _ = gen_c(ctx, sc)
     exe = ctx.path('replay', tag + '.exe')
